@@ -1,7 +1,7 @@
 CHECKS = [
     entry("C04", "collector",
           technique="property-based testing (rapid): generated schedules on the real collector under virtual time; reference rate/marker model over forwarded spans",
-          quick=dict(checks=400, budget_s=50),
+          quick=dict(checks=700, budget_s=70),
           thorough=dict(checks=8000, shards=16, budget_s=540),
           level_text="Generated client rates x sampler kinds x paths (on-time, late, stress relief) on the real collector; every forwarded span's SampleRate and meta rate fields are checked against the composition rule. Exploration.",
           level_note="Virtual time via testing/synctest; recording transmission double; MockConfig settings."),
